@@ -1306,10 +1306,14 @@ fn long_stream(rng: &mut Rng, sel: Sel) -> Vec<u8> {
     while v.len() < target {
         match sel {
             Sel::Lines => {
-                let n = match rng.below(10) {
+                // lines around the 1 KiB mark, just above the 8 KiB buffer, and so long that the buffer
+                // has to grow twice and fills up to less than LW of spare room again (> 15.4 KiB, > 31.8 KiB)
+                let n = match rng.below(12) {
                     0 => rng.range(1000, 1100),
                     1 => rng.range(8100, 8300),
                     2 => 0,
+                    3 => rng.range(15300, 16500),
+                    4 => *rng.pick(&[7168usize, 8191, 8192, 16383, 16384, 31700, 33000]),
                     _ => rng.range(1, 120),
                 };
                 for _ in 0..n {
